@@ -36,7 +36,7 @@ MC_CONFIGS = {
     "thorough": [dict(N=2, K=2, V=2), dict(N=3, K=2, V=2), dict(N=4, K=2, V=2), dict(N=5, K=2, V=1), dict(N=3, K=3, V=1)],
 }
 # (eu, ew): u = U * 2^-eu, w = W * 2^-ew with the scale far from 1 (every entry of w, or of u, far below any absolute threshold)
-SHIFTS = [(-20, 40), (0, 40), (-15, 45), (-30, 30), (20, -40), (18, 0), (0, -30), (30, -30), (-25, 50), (12, 12)]
+SHIFTS = [(-20, 40), (0, 40), (-15, 45), (-30, 30), (20, -40), (18, 0), (0, -30), (30, -30), (-25, 50), (12, 12), (45, -90), (-45, 90), (40, 0)]
 MC_INV = ["ClosedFormsEqualBruteForce", "KappaCountsPairs", "WSymmetric"]
 EM_INV = ["BestIsMax", "BestIsEarliest", "Counts", "NeverBelowFirst", "IterationBound", "NoStuck"]
 
@@ -553,7 +553,7 @@ def many_nodes_case(rng, idx):
             arr = [float(x) for x in m.log_kappa(np.arange(2, D + 1))]
             raw["log_kappa"] = [one, arr]
             c["kappa"] = [[d, fr("kappa", math.exp(x), 1)] for lst in (one, arr) for d, x in zip(range(2, D + 1), lst)
-                          if kappa_fits(N, d) and math.isfinite(x) and x < 25]
+                          if kappa_fits(N, d) and math.isfinite(x) and x < 21.4]          # (a wrong value beyond 31 bits is left to the log-space comparison)
         except Exception as ex:
             raised.append(("log_kappa", repr(ex)))
         try:
@@ -829,7 +829,7 @@ def run(tier, seed):
     res.coverage["phase_wall_s"] = {"explore": round(t1 - t0, 1), "closed_forms": round(t2 - t1, 1), "fit_monitor": round(time.time() - t2, 1)}
     res.assume(
         "closed forms: parameters are integer matrices (entries 0..3, N <= 6, K <= 3) times powers of two (u * 2^-eu, w * 2^-ew; one case "
-        "in four with the scale far from 1, |exponent| up to 50, moved into u, into w or from one into the other); a returned float times the "
+        "in four with the scale far from 1, |exponent| up to 90, moved into u, into w or from one into the other); a returned float times the "
         "(power of two) scale is converted to the nearest fraction with denominator <= %d, which must reproduce it within 1e-9*max(1,|x|); "
         "TLC decides equality of the fractions with the definitions exactly" % DEN,
         "two-scale affinities w = (Wd + 2^-27 Wo) * 2^-ew (diagonal Wd, off-diagonal 0/1 Wo): every quantity is linear in w, TLC (oracle mode) "
